@@ -496,5 +496,65 @@ theorem end_hr {s' : Stream γ'} {s : Stream γ} (hs : SRh f s' s) :
       | some err => exact ⟨(SRh.mk' hpr _ _ _ _).setDisp (by unfold HR; simp only [mapD, ← h1]), by first | rfl | trivial⟩
       | none => exact ⟨(SRh.mk' hpr _ _ _ _).setDisp (by unfold HR; simp only [mapD, ← h1]), by first | rfl | trivial⟩
 
+/-! ### rewriter, whole runs -/
+
+open LolHtml.Thm.C01 (writeAll run Rewriter.new)
+
+/-- related rewriters -/
+def RRh (f : γ' → γ) (r' : Rewriter γ') (r : Rewriter γ) : Prop :=
+  SRh f r'.stream r.stream ∧ r'.poisoned = r.poisoned ∧ r'.ended = r.ended
+
+theorem rewriter_write_hr {r' : Rewriter γ'} {r : Rewriter γ} (data : Bytes) (hr : RRh f r' r) :
+    RRh f (r'.write w' data).1 (r.write w data).1 ∧ (r'.write w' data).2 = (r.write w data).2 := by
+  obtain ⟨hs, hp, he⟩ := hr
+  unfold Rewriter.write
+  rw [hp]
+  by_cases hpp : r.poisoned = true
+  · rw [if_pos hpp, if_pos hpp]
+    exact ⟨⟨hs, hp, he⟩, rfl⟩
+  · rw [if_neg hpp, if_neg hpp]
+    obtain ⟨w1, w2⟩ := write_hr h ht data hs
+    dsimp only
+    rw [w2]
+    cases (r.stream.write w data).2 with
+    | ok u => exact ⟨⟨w1, rfl, he⟩, rfl⟩
+    | error e => exact ⟨⟨w1, rfl, he⟩, rfl⟩
+
+theorem rewriter_end_hr {r' : Rewriter γ'} {r : Rewriter γ} (hr : RRh f r' r) :
+    (r'.end w').2 = (r.end w).2 := by
+  obtain ⟨hs, hp, he⟩ := hr
+  unfold Rewriter.end
+  rw [hp]
+  by_cases hpp : r.poisoned = true
+  · rw [if_pos hpp, if_pos hpp]
+  · rw [if_neg hpp, if_neg hpp]
+    obtain ⟨_, w2⟩ := end_hr h ht hs
+    dsimp only
+    rw [w2]
+    cases (r.stream.end w).2 <;> rfl
+
+theorem writeAll_hr (cs : List Bytes) {r' : Rewriter γ'} {r : Rewriter γ} (hr : RRh f r' r) :
+    RRh f (writeAll w' r' cs).1 (writeAll w r cs).1 ∧ (writeAll w' r' cs).2 = (writeAll w r cs).2 := by
+  induction cs generalizing r' r with
+  | nil => exact ⟨hr, rfl⟩
+  | cons c cs ih =>
+    simp only [writeAll]
+    obtain ⟨a1, a2⟩ := rewriter_write_hr h ht c hr
+    obtain ⟨b1, b2⟩ := ih a1
+    exact ⟨b1, by rw [a2, b2]⟩
+
+/-- **Runs over `c'` are, under `f`, the runs over `w.ctl`**: every call returns the same result. -/
+theorem run_hom (g' : γ') (cfg : Settings) (cs : List Bytes) :
+    (run w' (Rewriter.new w' g' cfg) cs).2 = (run w (Rewriter.new w (f g') cfg) cs).2 := by
+  have hnew : RRh f (Rewriter.new w' g' cfg) (Rewriter.new w (f g') cfg) := by
+    refine ⟨⟨?_, rfl, rfl, rfl, rfl⟩, rfl, rfl⟩
+    simp only [Rewriter.new, Stream.new, worldOf, h.initialFlags g']
+    refine ⟨rfl, rfl, rfl, rfl, rfl, ?_, rfl, rfl⟩
+    show mapD f _ = _
+    simp only [Parser.new, Disp.new, mapD, h.initialFlags g']
+  obtain ⟨a1, a2⟩ := writeAll_hr h ht cs hnew
+  simp only [run]
+  rw [a2, rewriter_end_hr h ht a1]
+
 end
 end LolHtml.Model.Hom
